@@ -1279,3 +1279,26 @@ def import_rules(ctx, prop, rule_ids, as_rule, text, floor=1):
             n += 1
     if n == 0:
         chk.unrecognised(as_rule, f"<import {prop}>", f"none of {sorted(rule_ids)} produced an obligation")
+
+
+def through_getters(crate, s, _depth=0):
+    """Rewrites, inside a symbolic value, every call of one of the crate's own trivial field accessors
+    (`fn idle_timeout(&self) -> Option<Duration> { self.idle_timeout }`, exported or not) into the field read it stands
+    for, so a condition spelled through an accessor is the same condition as one spelled on the field."""
+    from facts import Sym, strip_sym
+
+    if not isinstance(s, tuple) or _depth > 12:
+        return s
+    if s and s[0] == "call" and isinstance(s[1], str) and isinstance(s[2], tuple) and len(s[2]) == 1:
+        fns = getattr(crate, "raw_by_path", None) or crate.by_path
+        f = fns.get(s[1]) or (fns.get(s[3]) if len(s) > 3 and isinstance(s[3], str) else None)
+        if f is not None and f.j.get("mir") and len(f.j["mir"]["blocks"]) == 1 and f.j["mir"]["blocks"][0].get("t", {}).get("k") == "return":
+            try:
+                r = strip_sym(Sym(f).local(0))
+            except Exception:
+                r = None
+            if isinstance(r, tuple) and r and r[0] == "field" and isinstance(r[2], str):
+                base = strip_sym(r[1])
+                if isinstance(base, tuple) and base and base[0] == "arg" and base[1] == 0:
+                    return ("field", through_getters(crate, s[2][0], _depth + 1), r[2])
+    return tuple(through_getters(crate, x, _depth + 1) if isinstance(x, tuple) else x for x in s)
